@@ -527,15 +527,13 @@ def c02_shadowed_parameter(p: str, q: str) -> bool:
     _rename(cls, {"TT": p, "QQ": q})
     ic = ti.InstantiatedClass(cls, [mk_typename(X)])
     ok = True
-    for label, sig in (("put", [ic.methods[0].return_type.type1] + [a.ctype for a in ic.methods[0].args.list()]),
-                       ("Make", [ic.static_methods[0].return_type.type1] + [a.ctype for a in ic.static_methods[0].args.list()]),
-                       ("ctor", [a.ctype for a in ic.ctors[0].args.list()])):
+    for label, sig, shape in (("put", [ic.methods[0].return_type.type1] + [a.ctype for a in ic.methods[0].args.list()],
+                               ["std::vector<%s>", "%s", "const std::vector<%s>&", "std::map<int, std::vector<%s::" + q + ">>", "%s::" + q]),
+                              ("Make", [ic.static_methods[0].return_type.type1] + [a.ctype for a in ic.static_methods[0].args.list()], ["%s", "std::vector<%s>"]),
+                              ("ctor", [a.ctype for a in ic.ctors[0].args.list()], ["const %s&", "std::vector<std::shared_ptr<%s>>"])):
         cpps = [t.to_cpp() for t in sig]
-        chosen = [c for c in ("ns::X", "ns::Y<int>") if all(c in s for s in cpps)]
-        other = {"ns::X": "ns::Y<int>", "ns::Y<int>": "ns::X"}
-        with concrete():
-            idents = [w for s in cpps for w in re.findall(r"[A-Za-z_]\w*", s)]          # whole identifiers: `s::` is not inside `ns::`
-        if len(chosen) != 1 or any(other[chosen[0]] in s for s in cpps) or (p in idents and p not in ("std", "vector", "map", "int", "ns", "X", "Y", "const")):      # a parameter spelled like a name the result contains anyway proves nothing
+        # exact expectation per binding (string equality keeps the spellings symbolic): all occurrences become ns::X, or all ns::Y<int>
+        if not any(cpps == [x.replace("%s", c) for x in shape] for c in ("ns::X", "ns::Y<int>")):
             ok = _fail(member=label, types=cpps, problem="the occurrences of the parameter are not all replaced by one and the same concrete type")
             break
     reached()
